@@ -115,6 +115,12 @@ def s_same(draw):
             ty = L if sy > 0 else L + length
         else:
             sy, ty, py, my = draw(s_axis_map(Hs, Hd, ky, ttol, stol))
+        if klass == "scale_int" and abs(sx) == abs(sy) and abs(sx) >= 2 and draw(st.integers(0, 3)) > 0:
+            # the paste-able integer-shrink situation needs the translation to be a whole number of overview
+            # pixels: make that common (it is ~1/k^2 otherwise)
+            k = abs(sx)
+            tx = float(round(tx / k) * k)
+            ty = float(round(ty / k) * k)
         Tm = [sx, 0.0, tx, 0.0, sy, ty]
         places = [px, py]
         mirrors = [mx, my]
@@ -248,15 +254,22 @@ PAIRS = [("4326", "3857"), ("3857", "4326"), ("4326", "6933"), ("6933", "3857"),
          ("32633", "4326"), ("4326", "32755"), ("32755", "3577"), ("3857", "3035"), ("sinu", "4326"), ("6933", "sinu"), ("4326", "3035"), ("3577", "32755")]
 
 
+SEPARABLE = [("4326", "3857"), ("3857", "4326"), ("4326", "6933"), ("6933", "4326"), ("3857", "6933"), ("6933", "3857")]
+
+
 @st.composite
-def s_diff(draw):
-    a, b = draw(st.sampled_from(PAIRS))
+def s_diff(draw, wide=False):
+    a, b = draw(st.sampled_from(SEPARABLE if wide else PAIRS))
     A0, B0 = CRS_POOL[a][1], CRS_POOL[b][1]
     lo = (max(A0[0], B0[0]) + 1, max(A0[1], B0[1]) + 1, min(A0[2], B0[2]) - 1, min(A0[3], B0[3]) - 1)
     lon = draw(st.floats(lo[0], lo[2]))
     lat = draw(st.floats(lo[1], lo[3]))
     # resolution in metres (converted to degrees for geographic CRSs)
-    res_m = draw(st.sampled_from([10.0, 30.0, 100.0, 1000.0, 5000.0]))
+    res_m = draw(st.sampled_from([20000.0, 50000.0, 100000.0] if wide else [10.0, 30.0, 100.0, 1000.0, 5000.0]))
+    if wide:
+        # cylindrical pairs map grid lines to grid lines (no curvature), but their scale varies strongly with
+        # latitude: rasters thousands of km across make "measured at the centre of the overlap" observable
+        lat = max(-55.0, min(55.0, lat))
     Hs, Ws = draw(st.integers(2, 48)), draw(st.integers(2, 48))
     Hd, Wd = draw(st.integers(2, 48)), draw(st.integers(2, 48))
     zoom = draw(st.sampled_from([1.0, 1.0, 2.0, 0.5, 3.3]))
@@ -393,3 +406,4 @@ def o_diff(case, T):
 def build(chk: Check) -> None:
     chk.sub("same_crs", o_same, strategy=s_same(), n={"quick": 5000, "thorough": 300000})
     chk.sub("diff_crs", o_diff, strategy=s_diff(), n={"quick": 700, "thorough": 40000}, shrink=False)
+    chk.sub("diff_crs_wide", o_diff, strategy=s_diff(wide=True), n={"quick": 300, "thorough": 15000}, shrink=False)
